@@ -38,6 +38,9 @@ objects make no claim.
 A primary-key change is flushed at once (an attribute load while a PK change is pending
 raises ObjectDeletedError -- reported separately, outside this property).
 Histories whose flush raises are not judged here (C31 / C32 judge those).
+Two directed witnesses run on shard 0 of every run: the pending delete-orphan child that
+is dropped when moved to another parent, and the delete cascade onto a stale, already
+deleted collection member whose second DELETE removes a row that reused its rowid.
 """
 from __future__ import annotations
 
@@ -68,7 +71,9 @@ KNOBS = [
     dict(tree_cascade="default", m2m_set=True),
 ]
 
-WEIGHTS = {"rollback": 1, "close": 1, "nest": 1, "spc": 1, "spr": 1}
+# no savepoints here: a SAVEPOINT rollback leaves what unmodified objects loaded while it was
+# open stale by design (S8); C33 owns savepoints and encodes that
+WEIGHTS = {"rollback": 1, "close": 1, "nest": 0, "spc": 0, "spr": 0}
 
 
 class Zoos:
@@ -228,6 +233,50 @@ DROP_BASE = [
 ]
 
 
+def directed_stale_cascade(ctx, R, zoo, tpl):
+    """Session.delete(parent) cascades along a loaded collection that still lists a child
+    whose DELETE an earlier flush already emitted (documented staleness).  The child is put
+    back into the identity map and deleted a second time; if a new row has been given the
+    same rowid meanwhile, that second DELETE removes the new object's row."""
+    import sqlalchemy as sa
+
+    rig = R.Rig(zoo, tpl, ctx.tmppath(".db"))
+    ops = ["o1,o2=Owner(),Owner(); i1=Item(owner=o1); commit", "o1.items", "delete(i1); flush", "delete(o1)",
+           "i2=Item(owner=o2); add(i2)", "flush"]
+    try:
+        s = rig.session
+        Owner, Item = zoo.cls["Owner"], zoo.cls["Item"]
+        o1, o2 = Owner(name="a"), Owner(name="b")
+        i1 = Item(qty=1, owner=o1)
+        s.add_all([o1, o2, i1])
+        s.commit()
+        list(o1.items)
+        s.delete(i1)
+        s.flush()
+        i2 = Item(qty=2, owner=o2)
+        try:
+            s.delete(o1)
+            s.add(i2)
+            s.flush()
+        except sa.exc.SQLAlchemyError as e:
+            ctx.count("directed_histories")
+            ctx.seen("directed_stale_cascade_raised", type(e).__name__)
+            return
+        cnt = {}
+        snap = R.snapshot(rig)
+        for f in R.relation(rig, snap, rig.read_txn, cnt):
+            mech = f.mechanism
+            if mech in ("persistent-object-without-row", "row-without-owner", "deleted-object-row-exists"):
+                mech = "delete-cascade-onto-stale-deleted-member-deletes-reused-row"
+            ctx.violation(mech, "directed: " + f.summary, {"ops": ops, "detail": f.detail, "graph": R.snap_public(snap)})
+        for k, v in cnt.items():
+            ctx.count(k, v)
+        ctx.count("directed_histories")
+        ctx.case({"directed": "stale-cascade"}, nontrivial=True)
+    finally:
+        rig.close()
+
+
 def run(ctx):
     import warnings
 
@@ -280,6 +329,7 @@ def run(ctx):
             for tail in ([["app", 0, "items", 2]], [["m2o", 2, "owner", 0]]):
                 run_history(ctx, R, zoo, tpl, KNOBS[0], True, lambda rig, t=tail: iter(DROP_BASE + t + [["flush"]]), 99)
                 ctx.count("directed_histories")
+            directed_stale_cascade(ctx, R, zoo, tpl)
 
         # ---- part B: random histories
         nhist = ctx.pick({"quick": 170, "thorough": 2600})
